@@ -207,47 +207,62 @@ fn strategy(_t: Tier) -> BoxedStrategy<Case> {
         .boxed()
 }
 
-/// (text, value function) of an object
-fn render(o: &Obj, n: usize) -> Result<(String, Box<dyn Fn(usize) -> bool>, &'static str), String> {
+/// the object printed under non-default format specifications (space padding, `+`, `#`): whatever
+/// the implementation does with them, the text must remain a formula denoting the object
+fn alt_texts<D: std::fmt::Display>(d: &D) -> Vec<(&'static str, String)> {
+    vec![
+        ("{:>40}", format!("{:>40}", d)),
+        ("{:<40}", format!("{:<40}", d)),
+        ("{:^60}", format!("{:^60}", d)),
+        ("{:+}", format!("{:+}", d)),
+        ("{:#}", format!("{:#}", d)),
+        ("{:5}", format!("{:5}", d)),
+    ]
+}
+
+type Rendered = (String, Box<dyn Fn(usize) -> bool>, &'static str, Vec<(&'static str, String)>);
+
+/// (text, value function, kind, texts under other format specifications) of an object
+fn render(o: &Obj, n: usize) -> Result<Rendered, String> {
     let nn = std::cmp::min(n, 12);
     Ok(match o {
         Obj::Cube(d) => {
             let c = d.build();
-            (c.to_string(), Box::new(move |m| c.value(m)), "cube")
+            { let (t, a) = (c.to_string(), alt_texts(&c)); (t, Box::new(move |m| c.value(m)), "cube", a) }
         }
         Obj::Ecube(d) => {
             let c = d.build();
-            (c.to_string(), Box::new(move |m| c.value(m)), "ecube")
+            { let (t, a) = (c.to_string(), alt_texts(&c)); (t, Box::new(move |m| c.value(m)), "ecube", a) }
         }
         Obj::Sop(d) => {
             let c = d.build(nn);
-            (c.to_string(), Box::new(move |m| c.value(m)), "sop")
+            { let (t, a) = (c.to_string(), alt_texts(&c)); (t, Box::new(move |m| c.value(m)), "sop", a) }
         }
         Obj::Esop(d) => {
             let c = d.build(nn);
-            (c.to_string(), Box::new(move |m| c.value(m)), "esop")
+            { let (t, a) = (c.to_string(), alt_texts(&c)); (t, Box::new(move |m| c.value(m)), "esop", a) }
         }
         Obj::Soes(d) => {
             let c = d.build(nn);
-            (c.to_string(), Box::new(move |m| c.value(m)), "soes")
+            { let (t, a) = (c.to_string(), alt_texts(&c)); (t, Box::new(move |m| c.value(m)), "soes", a) }
         }
         Obj::SopWide(v) => {
             let c = volute::sop::Sop::from_cubes(32, v.iter().map(|x| x.build()).collect());
-            (c.to_string(), Box::new(move |m| c.value(m)), "sop")
+            { let (t, a) = (c.to_string(), alt_texts(&c)); (t, Box::new(move |m| c.value(m)), "sop", a) }
         }
         Obj::EsopWide(v) => {
             let c = volute::sop::Esop::from_cubes(32, v.iter().map(|x| x.build()).collect());
-            (c.to_string(), Box::new(move |m| c.value(m)), "esop")
+            { let (t, a) = (c.to_string(), alt_texts(&c)); (t, Box::new(move |m| c.value(m)), "esop", a) }
         }
         Obj::SoesWide(v) => {
             let c = volute::sop::Soes::from_cubes(32, v.iter().map(|x| x.build()).collect());
-            (c.to_string(), Box::new(move |m| c.value(m)), "soes")
+            { let (t, a) = (c.to_string(), alt_texts(&c)); (t, Box::new(move |m| c.value(m)), "soes", a) }
         }
     })
 }
 
 pub fn run(c: &Case) -> Verdict {
-    let (text, value, kind) = match guard(|| render(&c.a, c.n)) {
+    let (text, value, kind, alts) = match guard(|| render(&c.a, c.n)) {
         Ok(Ok(x)) => x,
         Ok(Err(e)) => return fail("harness", e),
         Err(p) => return fail(format!("panic:display"), format!("building / printing {:?} panicked: {}", c.a, p)),
@@ -278,6 +293,16 @@ pub fn run(c: &Case) -> Verdict {
     for &m in &ms {
         let want = lib!("value", value(m as usize));
         ensure!(f.eval(m as u64) == want, format!("meaning:{}", kind), "{} {:?} prints as {:?}; on assignment {:#b} the text evaluates to {} but value() is {}", kind, c.a, text, m, f.eval(m as u64), want);
+    }
+    for (spec, t) in &alts {
+        let g = match parse(t) {
+            Ok(g) => g,
+            Err(e) => return fail(format!("unparsable-with-spec:{}", kind), format!("{} {:?} prints as {:?} under `{}` (plain: {:?}), which is not a formula: {}", kind, c.a, t, spec, text, e)),
+        };
+        for &m in &ms {
+            let want = lib!("value", value(m as usize));
+            ensure!(g.eval(m as u64) == want, format!("meaning-with-spec:{}", kind), "{} {:?} prints as {:?} under `{}`; on assignment {:#b} the text evaluates to {} but value() is {}", kind, c.a, t, spec, m, g.eval(m as u64), want);
+        }
     }
     ensure!(f.products_increasing(), format!("order:{}", kind), "{:?}: variables are not in increasing order inside a product", text);
     if kind == "ecube" || kind == "soes" {
@@ -396,7 +421,7 @@ fn enumerate(t: Tier, shard: usize, nshards: usize, f: &mut dyn FnMut(Case) -> b
 pub fn def() -> PropDef {
     PropDef {
         id: "C16",
-        rule: "cases = (n, object, second object, assignments): a Cube, Ecube, Sop, Esop or Soes built from a build description (every constructor, operator results included; Sop/Esop/Soes over min(n,12) variables, cubes and exclusive cubes over up to 32, full-support objects included, so that two-digit indices and the all-variables boundary occur). to_string() is read by the harness's own tokenizer + parser for `or := xor ('|' xor)*, xor := prod ('^' prod)*, prod := ('0' | '1' | '!'? 'x' digits)+` (white space insignificant) — the text must parse completely — and evaluated on all assignments (<= 8 variables; cubes: n<=5) or on generated 32-bit assignments plus all-zeros/all-ones otherwise, and compared with the object's own value(). Variable indices must be strictly increasing inside each product and inside each XOR term; for cubes and exclusive cubes a == b iff their texts are equal. Sop/Esop/Soes over all 32 variables built by from_cubes from up to 4 cubes, contradictory cubes included (legal only at that size), are printed and evaluated on generated 32-bit assignments. Non-trivial = the text contains a `!`, a two-digit index or >= 2 terms. Exhaustive: all cubes and exclusive cubes of n<=4 (each paired with itself and three neighbours for the distinct-text check); all Sop/Esop/Soes with <= 3 terms over n<=2 and <= 2 (quick) / <= 3 (thorough) terms over n=3.",
+        rule: "cases = (n, object, second object, assignments): a Cube, Ecube, Sop, Esop or Soes built from a build description (every constructor, operator results included; Sop/Esop/Soes over min(n,12) variables, cubes and exclusive cubes over up to 32, full-support objects included, so that two-digit indices and the all-variables boundary occur). to_string() is read by the harness's own tokenizer + parser for `or := xor ('|' xor)*, xor := prod ('^' prod)*, prod := ('0' | '1' | '!'? 'x' digits)+` (white space insignificant) — the text must parse completely — and evaluated on all assignments (<= 8 variables; cubes: n<=5) or on generated 32-bit assignments plus all-zeros/all-ones otherwise, and compared with the object's own value(). The same must hold for the text printed under the format specifications {:>40}, {:<40}, {:^60}, {:+}, {:#}, {:5} (space padding is white space). Variable indices must be strictly increasing inside each product and inside each XOR term; for cubes and exclusive cubes a == b iff their texts are equal. Sop/Esop/Soes over all 32 variables built by from_cubes from up to 4 cubes, contradictory cubes included (legal only at that size), are printed and evaluated on generated 32-bit assignments. Non-trivial = the text contains a `!`, a two-digit index or >= 2 terms. Exhaustive: all cubes and exclusive cubes of n<=4 (each paired with itself and three neighbours for the distinct-text check); all Sop/Esop/Soes with <= 3 terms over n<=2 and <= 2 (quick) / <= 3 (thorough) terms over n=3.",
         assumptions: vec!["the `evident grammar` is the one stated in the property; value() of the object is the reference for the meaning"],
         subs: vec![Box::new(Sub {
             name: "display",
